@@ -205,5 +205,18 @@ CHECKS["C20"] = {
     "technique": "exhaustive enumeration of an install-path alphabet (depth x length x flavour x invocation) with an out-of-process oracle",
 }
 
+CHECKS["C13"] = {
+    "engine": "E3-exhaustive-enumerator",
+    "category": "exploration",
+    "text": "Encode and round trip: ALL byte strings of length 0..3 over all 256 byte values (thorough: 0..4, i.e. 2^32 more), all strings of length 4..6 (5..8) over {00,01,7F,80,FF,'A'}, plus structured long families; "
+            "decode of arbitrary text: ALL strings of length 0..3 (0..4) over all 256 byte values, all strings of length 4..6 (5..8) over a 13-character alphabet of alphabet/padding/whitespace/url-safe/NUL/high bytes, and valid "
+            "prefixes followed by every such tail in exact-size heap blocks. Reference: an independent RFC 4648 codec (refs/C13_rfc4648.hpp, range arithmetic, bit-by-bit decode) that is cross-checked against python's base64 "
+            "module on every run; decode oracle = the statement's 'longest leading run of alphabet characters, whole bytes only'. Each chunk runs in a forked child under ASan + UBSan bounds + _GLIBCXX_ASSERTIONS so an "
+            "out-of-table index is attributed to its input.",
+    "design_ref": "DESIGN.md section 3, C13",
+    "note": "Trusted: the reference codec (cross-checked with python base64). Exhaustive over all byte values up to length 3 (4); longer inputs only through the structured families. The two 2^32 families of the thorough tier run without ASan/UBSan.",
+    "technique": "exhaustive input enumeration (all byte strings up to a length bound) against an independent RFC 4648 reference and the specification decode function",
+}
+
 NOT_YET = "check not built yet in this round; design in DESIGN.md section 3"
 NOT_APPLICABLE = {}
